@@ -314,6 +314,23 @@ def gen_unit(rng, uid, opts):
             lv = max(lv, pkg_level(keep[i2]["pkg"]))
         s["pkg"] = "app" if s["build"] else ["liba", "libb", "app"][max(lv, rng.choice([lv, lv, 2]))]
         s["var"] = "Set%d" % s["id"]
+    # a set imported by exactly one other set of the same package (or of a package that may name all its items) is
+    # now and then written in place, wire.NewSet(...) as an argument, instead of through a variable
+    for idx, s in enumerate(keep[:-1]):
+        users = [t for t in keep if idx in t["imports"]]
+        if len(users) == 1 and rng.random() < opts.get("p_inline_set", 0.25):
+            imp = users[0]
+            lv = max([pkg_level(u.items[n].get("pkg", "app")) for n in s["items"]] + [pkg_level(keep[i2]["pkg"]) for i2 in s["imports"]] + [0])
+            if pkg_level(imp["pkg"]) >= lv:
+                s["inline"] = True
+                s["pkg"] = imp["pkg"]
+                if s["items"] and rng.random() < 0.5:
+                    # a member nothing needs: the set as a whole still contributes, so this is well-formed
+                    j = len(u.structs)
+                    u.structs.append({"name": sname(u, j), "pkg": "app" if imp["pkg"] == "app" else imp["pkg"], "fields": [], "extra": [], "ptrrecv": False})
+                    u.items.append({"kind": "value", "outs": [("v", j)], "deps": [], "pkg": u.structs[j]["pkg"], "id": new_id()})
+                    src[("v", j)] = len(u.items) - 1
+                    s["items"].append(len(u.items) - 1)
     u.sets = keep
     # --- injector -----------------------------------------------------------------------------
     need_cleanup = any(it.get("cleanup") for it in u.items)
@@ -600,7 +617,7 @@ def materialise(prog):
                 body.append("\n".join(lines))
             # provider sets declared in this package
             for s in ([] if shadow else u.sets):
-                if s["pkg"] != pkg or s["build"]:
+                if s["pkg"] != pkg or s["build"] or s.get("inline"):
                     continue
                 # provider sets of library packages live in ordinary files; in the injector package
                 # they may sit next to the injectors (and are then copied into wire_gen.go)
@@ -780,7 +797,10 @@ def set_args(u, s, frm, T, used):
     for kind, n in entries:
         if kind == "imp":
             t = u.sets[n]
-            out.append(q(t["pkg"], t["var"]))
+            if t.get("inline"):
+                out.append("wire.NewSet(%s)" % ", ".join(set_args(u, t, frm, T, used)))
+            else:
+                out.append(q(t["pkg"], t["var"]))
             continue
         it = u.items[n]
         k = it["kind"]
@@ -877,8 +897,16 @@ def plant(rng, u, kind):
         seen.add(k)
         used_items += u.sets[k]["items"]
         todo += u.sets[k]["imports"]
+    # only what the result actually depends on can be "missing" (a set may hold a member nothing needs)
+    reach0, todo0 = set(), [u.inj["out"]]
+    while todo0:
+        t0 = todo0.pop()
+        if t0 in reach0 or t0 not in u.src:
+            continue
+        reach0.add(t0)
+        todo0 += u.items[u.src[t0]]["deps"]
     if kind == "missing":
-        cands = [n for n in used_items if u.items[n]["kind"] in ("func", "value", "ivalue")]
+        cands = [n for n in used_items if u.items[n]["kind"] in ("func", "value", "ivalue") and u.items[n]["outs"][0] in reach0]
         if not cands:
             return None
         n = rng.choice(cands)
@@ -900,7 +928,8 @@ def plant(rng, u, kind):
                         u.prog.pkgmap[o["pkg"]]["name"] == u.prog.pkgmap[st["pkg"]]["name"] and (k, j) in u.src:
                     return (k, j)
             return None
-        cands = [n for n in used_items if u.items[n]["kind"] in ("func", "value") and namesake(u.items[n]["outs"][0])]
+        cands = [n for n in used_items if u.items[n]["kind"] in ("func", "value") and namesake(u.items[n]["outs"][0])
+                 and u.items[n]["outs"][0] in reach0]
         if not cands:
             # make the shape: a needed namesake in the other package of the same name
             pm = u.prog.pkgmap
@@ -969,6 +998,35 @@ def plant(rng, u, kind):
         for t in u.items[n]["outs"]:
             u.src.pop(t, None)
         return "removed the source of %s, whose namesake in the other package of the same name is still provided" % (u.items[n]["outs"],)
+    if kind == "missingform":
+        # wire.FieldsOf(new(S)) needs S (or *S); the program only supplies the other form — as an injector argument, so
+        # that it is available before anything else is looked at.  T is not *T.
+        if getattr(u, "shadow", False) or any(getattr(o, "twin_of", None) is u for o in u.prog.units):
+            return None
+        cands = []
+        for n in used_items:
+            f = u.items[n]
+            if f["kind"] != "field":
+                continue
+            k, m = f["parent"]
+            other = ("p" if k == "v" else "v", m)
+            if (k, m) in u.src and other not in u.src and u.items[u.src[(k, m)]]["kind"] in ("func", "value") and f["outs"][0] in reach0:
+                cands.append((n, (k, m), other))
+        if not cands:
+            return None
+        n, par, other = rng.choice(cands)
+        pidx = u.src[par]
+        for st in u.sets:
+            if pidx in st["items"]:
+                st["items"].remove(pidx)
+        for t in u.items[pidx]["outs"]:
+            u.src.pop(t, None)
+        u.items.append({"kind": "arg", "outs": [other], "deps": [], "id": max(x["id"] for x in u.items) + 450})
+        u.src[other] = len(u.items) - 1
+        u.inj["args"].append(other)
+        if u.inj.get("argnames"):
+            u.inj["argnames"] = list(u.inj["argnames"]) + ["formarg"]
+        return "the parent %s of a field selection has no source; only %s is supplied (as an injector argument)" % (par, other)
     if kind == "dup":
         cands = [n for n in used_items if u.items[n]["kind"] == "value"]
         if not cands:
@@ -1063,6 +1121,16 @@ def plant(rng, u, kind):
         build["items"].append(len(u.items) - 1)
         build.pop("order", None)
         return "superfluous provider %s of the other package called %s" % (u.items[-1]["fn"], pm[other]["name"])
+    if kind == "emptyinline":
+        # wire.NewSet() written in place among the arguments of wire.Build: an item that contributes nothing
+        if getattr(u, "shadow", False):
+            return None
+        sid = max(t["id"] for t in u.sets) + 1
+        n0 = len(u.sets) - 1
+        u.sets.insert(n0, {"id": sid, "items": [], "imports": [], "build": False, "pkg": "app", "var": "Set%d" % sid, "inline": True})
+        build["imports"] = list(build["imports"]) + [n0]
+        build.pop("order", None)
+        return "an empty provider set written in place"
     if kind == "unused":
         i = len(u.structs)
         u.structs.append({"name": sname(u, i), "pkg": "app", "fields": [], "extra": [], "ptrrecv": False})
